@@ -1112,7 +1112,9 @@ def rule_contradictory_attributes(model):
                    'expr=, name= together with expr=, and no operand at '
                    'all never compile -- name_param reaches no return for '
                    'those attribute combinations')
-    npf = model.func('DT_Util', 'name_param')
+    # (on the view with new helpers inlined: the decision tree may be
+    # spread over extracted helpers)
+    npf = model.inlined_view().func('DT_Util', 'name_param')
     combos = [
         (('plain', True, False, True), 'an unnamed name and name='),
         (('plain', False, True, True), 'an unnamed name and expr='),
